@@ -1,11 +1,34 @@
 import SqlModel.Pipeline
+import SqlModel.KwNorm
 import SqlProofs.SplitValue
 /-!
-# C11 — parsing is insensitive to inter-token whitespace and keyword letter case (theorems land here; see below)
+# C11 — parsing is insensitive to inter-token whitespace and keyword letter case
+
+Theorems: the statement splitter sees a token only through its *view* — type, `_change_splitlevel` class (computed from
+`' '.join(value.upper().split())` for keywords), the `;` test and the case-insensitive GO test — so two token streams with the same views are split
+into statements of identical extents (`split_view_invariant`); re-spelled keywords have the same view (`kwNorm` facts below, and the driver
+evaluates `tokView` on both spellings of every generated script: stream DOMAIN(view)).  The tree model compares keywords through `kwNorm` only
+(`Node.match`, `Node.normalized` are parametric in it).  Not theorems: invariance of the 25 grouping passes under changing the *number* of
+whitespace tokens — established by the metamorphic oracle on the real code and by S-TREE on both spellings.
 -/
 namespace Sql.C11
 
-/-- placeholder obligation replaced below by the real theorems -/
-theorem unify_idempotent_on_sample : unify defaultSplitCfg (txt "end  \t if") = txt "END IF" := by decide +kernel
+/-- streams with equal views have identical statement extents -/
+theorem split_view_invariant (ts ts' : List Tok) (h : ts.map (tokView defaultSplitCfg) = ts'.map (tokView defaultSplitCfg)) :
+    partitionLens (splitProcess defaultSplitCfg ts) = partitionLens (splitProcess defaultSplitCfg ts') :=
+  Sql.split_view_invariant defaultSplitCfg ts ts' h
+
+/-- re-spelled multi-word keywords normalise identically (examples over the closing keywords the splitter and the grouping passes compare) -/
+theorem respelled_keywords_normalise :
+    kwNorm (txt "end  \t if") = txt "END IF" ∧ kwNorm (txt "Order\r\n\nBY") = txt "ORDER BY" ∧ kwNorm (txt "uNiOn   aLl") = txt "UNION ALL" ∧
+    kwNorm (txt "Create\n or\treplace") = txt "CREATE OR REPLACE" ∧ unify defaultSplitCfg (txt "End\tWhile") = txt "END WHILE" := by
+  refine ⟨?_, ?_, ?_, ?_, ?_⟩ <;> decide +kernel
+
+/-- and hence have the same view: `END  IF` and `end if` both close a block, `go` and `GO` both end a batch -/
+theorem respelled_views_equal :
+    tokView defaultSplitCfg ⟨T.Keyword, txt "END  IF"⟩ = tokView defaultSplitCfg ⟨T.Keyword, txt "end\tif"⟩ ∧
+    tokView defaultSplitCfg ⟨T.Keyword, txt "GO"⟩ = tokView defaultSplitCfg ⟨T.Keyword, txt "go"⟩ ∧
+    tokView defaultSplitCfg ⟨T.DDL, txt "CREATE OR REPLACE"⟩ = tokView defaultSplitCfg ⟨T.DDL, txt "create  or\nreplace"⟩ := by
+  refine ⟨?_, ?_, ?_⟩ <;> decide +kernel
 
 end Sql.C11
